@@ -192,6 +192,12 @@ class ClassFacts:
                             "fam": e.fam, "elem": cn.show(e.elem) if isinstance(e.elem, tuple)
                             else e.elem, "value": cn.show(e.value), "value_t": e.value,
                             "cond": cond, "loc": e.ev.loc, "ev": e.ev})
+            elif e.kind in ("attr", "other"):
+                # stores into objects other than the state's array storage (action, network,
+                # scenario attributes, auxiliary dicts) do not change the returned *state*; they
+                # are judged by C13 (purity) / C19 (shared state), not by the state-transition rules
+                self.side_effects = getattr(self, "side_effects", [])
+                self.side_effects.append(e)
             else:
                 kind = "attr" if e.kind == "attr" else e.kind
                 out.append({"kind": kind, "root": "OTHER",
